@@ -528,12 +528,13 @@ func c27Alphabet(names, targets []string) []c27Entry {
 // the position of that call relative to the containment check becomes observable: directories
 // created through a link that leads outside are new (possibly empty) objects outside dest.
 // Types: regular file, directory, hard link (source from hsrc), symbolic link (target ".").
-func c27Deep(prefixes []string, hsrc []string, types string) []c27Entry {
+func c27Deep(one, two []string, hsrc []string, types string) []c27Entry {
 	var names []string
-	for _, suffix := range []string{"/n/f", "/n/m/f"} { // one, then two missing intermediate directories
-		for _, p := range prefixes {
-			names = append(names, p+suffix)
-		}
+	for _, p := range one { // one missing intermediate directory
+		names = append(names, p+"/n/f")
+	}
+	for _, p := range two { // two
+		names = append(names, p+"/n/m/f")
 	}
 	var out []c27Entry
 	for _, t := range types {
@@ -612,24 +613,10 @@ func TestVerif_C27(t *testing.T) {
 		name string
 		pos  [][]c27Entry
 	}
-	var fams []family
-	fams = append(fams, family{"depth1/full", [][]c27Entry{full}})
-	if r.Thorough() {
-		fams = append(fams, family{"depth2/full", [][]c27Entry{full, full}})
-		fams = append(fams, family{"depth3/full", [][]c27Entry{full, full, full}})
-		fams = append(fams, family{"depth4/reduced", [][]c27Entry{red, red, red, red}})
-		r.Info["bounds"] = "all archives of <= 3 entries over the full alphabet; all archives of 4 entries over the reduced alphabet"
-	} else {
-		// the families that can reach a violation with the fewest entries come first, so that a run cut short by the
-		// deadline on an overloaded machine still reports the same fingerprints
-		syms := c27Only(full, "s")
-		fams = append(fams, family{"depth3/reduced", [][]c27Entry{red, red, red}})
-		fams = append(fams, family{"depth3/symlink(full),symlink(full),file(reduced)", [][]c27Entry{syms, syms, c27Only(red, "f")}})
-		fams = append(fams, family{"depth2/full", [][]c27Entry{full, full}})
-		r.Info["bounds"] = "all archives of <= 2 entries over the full alphabet; depth 3: all archives over the reduced alphabet, and symlink(full),symlink(full),file(reduced names)"
-	}
+	var fams, late, deepFams []family
+	deepBounds := ""
 	// entries with missing multi-level parents below every place a link can be (see c27Deep): after any
-	// single entry (full alphabet), and after every pair symlink, symlink|hardlink -- an archive whose first
+	// single symlink (full alphabet), and after every pair symlink, symlink|hardlink -- an archive whose first
 	// entry is a hard link ends at that entry (nothing to link to yet), and one link alone cannot leave dest
 	// unless the lexical validation itself is broken, which the depth-2 family covers.
 	{
@@ -637,18 +624,39 @@ func TestVerif_C27(t *testing.T) {
 		var deep []c27Entry
 		var l1, l2 []c27Entry
 		if r.Thorough() {
-			deep = c27Deep(prefixes, []string{".", "a", "b/secret"}, "fdhs")
+			deep = c27Deep(prefixes, prefixes, []string{".", "a", "b/secret"}, "fdhs")
 			l1, l2 = c27Only(full, "s"), c27Only(full, "sh")
 		} else {
-			deep = c27Deep(prefixes, []string{"."}, "fdhs")
+			// quick: two missing levels only below the top-level places; hard-link source "." (always there, always inside)
+			deep = c27Deep(prefixes, prefixes[:4], []string{"."}, "fdhs")
 			l1, l2 = c27Only(red, "s"), c27Only(red, "sh")
 		}
 		r.Info["deep_entries"] = len(deep)
 		r.Info["deep_name_prefixes"] = prefixes
-		fams = append(fams, family{"depth3/symlink,symlink|hardlink,missing-parents", [][]c27Entry{l1, l2, deep}})
-		fams = append(fams, family{"depth2/full,missing-parents", [][]c27Entry{full, deep}})
-		r.Info["bounds"] = r.Info["bounds"].(string) + "; entries with 1-2 missing intermediate directories below every link place (file, dir, hard link, symlink): after every single entry of the full alphabet and after every pair symlink, symlink|hardlink (quick: reduced alphabet, thorough: full alphabet)"
+		deepFams = append(deepFams, family{"depth2/symlink(full),missing-parents", [][]c27Entry{c27Only(full, "s"), deep}})
+		deepFams = append(deepFams, family{"depth3/symlink,symlink|hardlink,missing-parents", [][]c27Entry{l1, l2, deep}})
+		deepBounds = "; entries with 1-2 missing intermediate directories below every link place (file, dir, hard link, symlink): after every single symlink of the full alphabet and after every pair symlink, symlink|hardlink (quick: pairs over the reduced alphabet, two missing levels only below top-level places; thorough: pairs over the full alphabet)"
 	}
+	fams = append(fams, family{"depth1/full", [][]c27Entry{full}})
+	if r.Thorough() {
+		fams = append(fams, family{"depth2/full", [][]c27Entry{full, full}})
+		fams = append(fams, deepFams...)
+		// the two big families run last, so that a thorough run cut short by the deadline on an overloaded
+		// machine has still completed every smaller family
+		late = append(late, family{"depth3/full", [][]c27Entry{full, full, full}})
+		late = append(late, family{"depth4/reduced", [][]c27Entry{red, red, red, red}})
+		r.Info["bounds"] = "all archives of <= 3 entries over the full alphabet; all archives of 4 entries over the reduced alphabet"
+	} else {
+		// the families that can reach a violation with the fewest entries come first, so that a run cut short by the
+		// deadline on an overloaded machine still reports the same fingerprints
+		syms := c27Only(full, "s")
+		fams = append(fams, deepFams...)
+		fams = append(fams, family{"depth3/reduced", [][]c27Entry{red, red, red}})
+		fams = append(fams, family{"depth3/symlink(full),symlink(full),file(reduced)", [][]c27Entry{syms, syms, c27Only(red, "f")}})
+		fams = append(fams, family{"depth2/full", [][]c27Entry{full, full}})
+		r.Info["bounds"] = "all archives of <= 2 entries over the full alphabet; depth 3: all archives over the reduced alphabet, and symlink(full),symlink(full),file(reduced names)"
+	}
+	r.Info["bounds"] = r.Info["bounds"].(string) + deepBounds
 	// a 5-entry family around "a hard link to a symlink replaces an (empty) directory that was already
 	// checked": dir D1; symlink D1/l -> up^k; dir D2; hardlink D2 => D1/l; file D2/f
 	{
@@ -668,6 +676,7 @@ func TestVerif_C27(t *testing.T) {
 		}
 		fams = append(fams, family{"depth5/dir,symlink,dir,hardlink-over-dir,file", [][]c27Entry{p1, p2, p3, p4, p5}})
 	}
+	fams = append(fams, late...)
 	n := 0
 	for _, f := range fams {
 		idx := make([]int, len(f.pos))
@@ -685,9 +694,21 @@ func TestVerif_C27(t *testing.T) {
 				}
 				return true
 			}
+			// the work is split over the shards on the first position (one-entry families) or on the
+			// first two positions (all others: first alphabets are small, the pair index balances the shards)
+			splitAt := 0
+			if len(f.pos) > 1 {
+				splitAt = 1
+			}
 			for i, e := range f.pos[d] {
-				if d == 0 && i%r.Shards != r.Shard {
-					continue
+				if d == splitAt {
+					k := i
+					if d == 1 {
+						k = idx[0]*len(f.pos[1]) + i
+					}
+					if k%r.Shards != r.Shard {
+						continue
+					}
 				}
 				idx[d], cur[d] = i, e
 				if !rec(d + 1) {
